@@ -202,6 +202,7 @@ def finish (st : St) : Bool × Bool × List String :=
             sends := rs.sends.toList.map toObs },
         alives := st.alives.toList.map toObs,
         stopTime := match st.ann with | some a => if a.stopped then some a.upto else none | none => none,
+        annUpto := st.ann.map (·.upto),
         byebyes := st.byes.toList.map toObs }
     let wf := wfTree dev
     let jn1 := (icase.searches.zipIdx.filterMap fun (s, idx) =>
